@@ -383,7 +383,6 @@ def input_class(cfg, c):
     if k in ("speed", "cspeed", "estop", "tper"):
         t = [t for t in cfg["trains"] if t["id"] == c[1]]
         if k == "tper" and t:
-            if c[3] > 1: return "train-peripheral.state>1"
             bit = [b for n, b in t[0]["pers"] if n == c[2]]
             if bit and 5 <= bit[0] <= 7: return "train-peripheral.bit5-7"
         if t and t[0]["addrh"] > 0x3F: return "train.dcc-addrh>0x3f"
@@ -400,7 +399,7 @@ def defect_shape(cls, cfg, c, exp, o, prev):
     msgs_ok = not match_expected((o["ret"], exp[1], strip_rest(o["state"])), (o["ret"], o["msgs"], o["state"]))
     if cls in ("accessory.number>127", "accessory.aspect>127", "track-output.state-not-enum"):
         return o["ret"] == 0 and o["msgs"] == [] and same_state
-    if cls in ("train-peripheral.state>1", "train-peripheral.bit5-7"):
+    if cls == "train-peripheral.bit5-7":
         t = [t for t in cfg["trains"] if t["id"] == c[1]][0]
         addr = prev["B"].get(c[-1], [0, None])[1]
         return o["ret"] == 0 and o["msgs"] is not None and (o["msgs"] == [] or (len(o["msgs"]) == 1 and o["msgs"][0][0] == addr and o["msgs"][0][1] == MSG_CS_DRIVE
